@@ -816,8 +816,22 @@ def run(ctx):
     add('oracle-only/nondyadic-floats', s, expr, pop)
   ctx.log('generated %d cases' % len(cases))
   for i, c in enumerate(cases): c['det'] = (i % 3 == 0)
-  import os
-  results = run_jobs(process_case, cases, min(12, os.cpu_count() or 1))
+  import os, time
+  nproc = min(12, os.cpu_count() or 1)
+  # wall-clock guard of the quick tier: the systematic part always runs; the random expressions are cut to what fits
+  first = [c for c in cases if not c['kind'].startswith('expression/')]
+  rest = [c for c in cases if c['kind'].startswith('expression/')]
+  t0 = time.time()
+  results = run_jobs(process_case, first, nproc)
+  dt = time.time() - t0
+  if not ctx.thorough and first:
+    budget = 95.0 - (time.time() - ctx.t0)
+    fit = int(max(budget, 0) / max(dt / len(first), 1e-4) * 0.6)      # expressions cost about 1.6x a primitive case
+    if fit < len(rest):
+      ctx.log('wall-clock guard: %d of %d random expressions run' % (max(fit, 0), len(rest))); ctx.extra['wall_clock_guard'] = dict(expressions_generated=len(rest), expressions_run=max(fit, 0))
+      rest = rest[:max(fit, 0)]
+  results += run_jobs(process_case, rest, nproc)
+  cases = first + rest
   trs, impl, descr = [], [], []
   inexact = 0
   checked = sum(r['contract'][0] for r in results); broken = [b for r in results for b in r['contract'][1]]
